@@ -18,6 +18,7 @@ import ast
 import builtins
 import inspect
 import itertools
+import re
 import types
 
 import z3
@@ -111,7 +112,18 @@ class Sorts:
         self.uuid_ok = F("uuid_ok", S, B)                 # uuid.UUID(str) does not raise ValueError
         self.eval_code = F("eval_code", S, JV)            # value that the Python expression text evaluates to
         self.evaluable = F("code_evaluable", S, B)        # the text is an expression evaluable in the generated module
+        self.dbl = F("nearest_double", R, R)              # the double nearest to a real (round-half-even); identity on doubles
+        self.HALF_ULP_MAX = z3.RealVal(2 ** 970)          # ints below MAXF + 2**970 in magnitude still round to a finite double
         self.MAXF = z3.RealVal("179769313486231570814527423731704356798070567525844996598917476803157260780028538760589558632766878171540458953514382464234321326889464182768467546703537516986049910576551282076245490090389328944075868508455133942304583236903222948165808559332123348274797826204144723168738177180919299881250404026184124858368")
+
+    def int_as_double(self, i):
+        """float(i) for an integer term i whose nearest double is finite: exact up to 2**53, the nearest double beyond"""
+        r = z3.ToReal(i)
+        return z3.If(z3.And(i <= 2 ** 53, i >= -(2 ** 53)), r, self.dbl(r))
+
+    def int_overflows_double(self, i):
+        r = z3.ToReal(i)
+        return z3.Or(r >= self.MAXF + self.HALF_ULP_MAX, r <= -(self.MAXF + self.HALF_ULP_MAX))
 
     @classmethod
     def get(cls):
@@ -655,6 +667,12 @@ class Interp:
                 return v.nonempty
             if isinstance(v, SOpaque) and v.cls in (list, dict, set, str):
                 raise Unsupported(f"truthiness of opaque {v.name}")
+            if isinstance(v, SOpaque) and v.cls is None:
+                # a value of unknown type: its truth value is unknown (but the same every time it is asked)
+                t = getattr(v, "_truth", None)
+                if t is None:
+                    t = v._truth = self.fresh("truth_of_" + re.sub(r"\W+", "_", v.name)[:30], z3.BoolSort())
+                return t
             return True
         if isinstance(v, SV):
             return self.truth(self.view(v))
@@ -802,13 +820,14 @@ class Interp:
                      z3.If(Z.rec["bool"](t), z3.If(Z.acc["b"](t), z3.RealVal(1), z3.RealVal(0)), Z.acc["r"](t)))
 
     def as_float(self, v):
+        """the numeric value of v as a (kind, real) pair -- exact, for comparisons; float(<int>) is int_to_float"""
         Z = self.Z
         if isinstance(v, SFloat):
             return v
         if isinstance(v, bool):
             return SFloat(Z.fk["fin"], z3.RealVal(int(v)))
         if isinstance(v, int):
-            return SFloat(Z.fk["fin"], z3.RealVal(v))
+            return SFloat(Z.fk["fin"], z3.RealVal(v))      # the exact numeric value (comparisons are exact in Python)
         if isinstance(v, float):
             return self.float_const(v)
         if isinstance(v, SInt):
@@ -816,6 +835,15 @@ class Interp:
         if isinstance(v, SBool):
             return SFloat(Z.fk["fin"], z3.If(v.t, z3.RealVal(1), z3.RealVal(0)))
         raise Unsupported("numeric value expected")
+
+    def int_to_float(self, i):
+        """float(<int term>): OverflowError when the nearest double is not finite, otherwise the nearest double"""
+        Z = self.Z
+        if self.branch(Z.int_overflows_double(i)):
+            self.raise_(OverflowError, "int too large to convert to float")
+        r = Z.int_as_double(i)
+        self.assume(z3.And(r <= Z.MAXF, r >= -Z.MAXF))
+        return SFloat(Z.fk["fin"], r)
 
     # -- exceptions -----------------------------------------------------------------------------------------------------
     def raise_(self, cls, msg=""):
@@ -2199,12 +2227,40 @@ class Interp:
         return SFiltered(it, keep, image, kind=type(node).__name__)
 
     def e_SetComp(self, node, fr):
+        if len(node.generators) == 1 and not node.generators[0].ifs:
+            # {f(x) for x in <abstract collection>}: the collection may know how to describe its image under f
+            g = node.generators[0]
+            it = self.eval(g.iter, fr)
+            hook = getattr(it, "setcomp_hook", None)
+            if hook is not None:
+                snapshot = dict(fr.locals)
+
+                def image(e):
+                    f2 = Frame(fr.module, dict(snapshot), fr.qualname, fr.cls)
+                    f2.local_names = getattr(fr, "local_names", ())
+                    self.assign(g.target, e, f2)
+                    return self.eval(node.elt, f2)
+                return hook(self, image)
         flt = self._filtered_comp(node, fr)
         if flt is not None:
             return flt
         return SSet([self.hashable(x) for x in self._comp(node, fr, lambda f: self.eval(node.elt, f))])
 
     def e_DictComp(self, node, fr):
+        if len(node.generators) == 1 and not node.generators[0].ifs:
+            # {k(x): v(x) for x in <abstract collection>}: the collection may know how to describe the result
+            g = node.generators[0]
+            it = self.eval(g.iter, fr)
+            hook = getattr(it, "dictcomp_hook", None)
+            if hook is not None:
+                snapshot = dict(fr.locals)
+
+                def image(e):
+                    f2 = Frame(fr.module, dict(snapshot), fr.qualname, fr.cls)
+                    f2.local_names = getattr(fr, "local_names", ())
+                    self.assign(g.target, e, f2)
+                    return self.eval(node.key, f2), self.eval(node.value, f2)
+                return hook(self, image)
         pairs = self._comp(node, fr, lambda f: (self.hashable(self.eval(node.key, f)), self.eval(node.value, f)))
         return SDict(dict(pairs))
 
